@@ -71,6 +71,7 @@ ASSUMPTIONS = [
     "keyword 'auto'; dates have a four-digit year (glibc strftime('%Y') does not pad smaller years); the schema clause is evaluated "
     "only when every time step fits xs:int (32 bit) — such cases are counted in excluded_ambiguous",
 ]
+EXTRA_MODULES = ["CRProps.T14"]      # translator tie: Gen.SrcC14 (regenerated from the working tree every run) = hand model
 TRUSTED = ["lxml/libxml2 XML Schema validator (the Lean validator is compared with it, not proved equal)"]
 REQUIRED_BUCKETS = ["single", "cooperative", "type:PM", "type:ST", "type:KS", "type:KST", "type:MB", "type:Input", "type:PMInput",
                     "unordered", "schema-checked", "schema-not-applicable", "file-path", "pretty", "compact", "mutant", "reject",
